@@ -78,6 +78,14 @@ void harness(void) {
     free(a.io.luma); free(a.io.cb); free(a.io.cr); free(b.io.luma); free(b.io.cb); free(b.io.cr);
     pad_input_pictures(&scs, da);
     pad_input_pictures(&scs, db);
+#if BITS == 8
+    /* functional part: the visible samples arrive where the encoder reads them */
+    for (int y = 0; y < VH; y++) for (int x = 0; x < VW; x++)
+        V_ASSERT(da->buffer_y[(MARGIN + y) * da->stride_y + MARGIN + x] == vis_y[y][x], "every visible luma sample of the submitted picture is in the library's copy");
+    for (int y = 0; y < VH / 2; y++) for (int x = 0; x < VW / 2; x++) {
+        V_ASSERT(da->buffer_cb[(MARGIN / 2 + y) * da->stride_cb + MARGIN / 2 + x] == vis_cb[y][x], "every visible Cb sample of the submitted picture is in the library's copy");
+        V_ASSERT(da->buffer_cr[(MARGIN / 2 + y) * da->stride_cr + MARGIN / 2 + x] == vis_cr[y][x], "every visible Cr sample of the submitted picture is in the library's copy"); }
+#endif
     same(da->buffer_y, db->buffer_y, da->luma_size, "luma");
     same(da->buffer_cb, db->buffer_cb, da->chroma_size, "cb");
     same(da->buffer_cr, db->buffer_cr, da->chroma_size, "cr");
